@@ -101,7 +101,7 @@ def refute_by_grounding(o, axioms, sorts, sizes=(2, 3), budget=8.0):
     return None, None
 
 
-def discharge(obls, axioms, timeout_ms=10000, canary_ms=1500, ground_sorts=(), second=True):
+def discharge(obls, axioms, timeout_ms=10000, canary_ms=1500, ground_sorts=(), second=True, reseed=True):
     for o in obls:
         s = Solver(); s.set(timeout=canary_ms if o.canary else timeout_ms)
         s.add(axioms); s.add(o.hyps); s.add(Not(o.goal))
@@ -113,7 +113,7 @@ def discharge(obls, axioms, timeout_ms=10000, canary_ms=1500, ground_sorts=(), s
         elif r == sat: o.status = 'refuted'; o.model = s.model(); o.universe = None
         else:
             o.status = 'undecided'; o.reason = s.reason_unknown()
-            for seed in (7, 23):              # quantifier instantiation is seed-sensitive: two more attempts before other back ends
+            for seed in ((7, 23) if reseed else ()):              # quantifier instantiation is seed-sensitive: two more attempts before other back ends
                 s2 = Solver(); s2.set(timeout=timeout_ms, random_seed=seed); s2.set('smt.random_seed', seed)
                 s2.add(axioms); s2.add(o.hyps); s2.add(Not(o.goal))
                 r2 = s2.check()
